@@ -274,9 +274,14 @@ func oracleFor(op *Sexp, res string) []string {
 		if err != nil {
 			return nil
 		}
-		want := "ok " + normPos(c.td, v, c.tag == "proto").String()
+		nv := normPos(c.td, v, c.tag == "proto")
+		want := "ok " + nv.String()
 		if res != want {
-			bad("round trip differs beyond the documented normalisations: got %s want %s", res, want)
+			if alt, ch := f13Norm(cfgRef(c.cfg).protoArrays, c.td, c.tag, nv); ch && res == "ok "+alt.String() {
+				bad("%s: got %s want %s", f13Text, res, want)
+			} else {
+				bad("round trip differs beyond the documented normalisations: got %s want %s", res, want)
+			}
 		}
 	case "enc":
 		c, err := parseCtx(op)
@@ -317,8 +322,13 @@ func oracleFor(op *Sexp, res string) []string {
 		if e1 != nil || e2 != nil || res == "builderr" {
 			return nil
 		}
-		if want := "ok " + normPos(td, v, false).String(); res != want {
-			bad("value written under options %s read under options %s: got %s want %s", arg(1), arg(2), res, want)
+		nv := normPos(td, v, false)
+		if want := "ok " + nv.String(); res != want {
+			if alt, ch := f13Norm(len(arg(1)) == 2 && arg(1)[1] == '1', td, "", nv); ch && res == "ok "+alt.String() {
+				bad("%s: got %s want %s", f13Text, res, want)
+			} else {
+				bad("value written under options %s read under options %s: got %s want %s", arg(1), arg(2), res, want)
+			}
 		}
 	case "mut":
 		// both encodings are functions of the value alone
